@@ -58,6 +58,17 @@ pub fn check_case(case: &Case) -> CheckResult {
                 if let Err(e) = roundtrip(a) {
                     r.fail(format!("file {id} ({stage} tree): {e}"));
                 }
+                // the read-only helper API must not change what a tree serialises to or equals:
+                // visit every symbol, ask it everything, then round-trip the same tree again
+                aidl_parser::traverse::walk_symbols(a, aidl_parser::traverse::SymbolFilter::All, |s| {
+                    let _ = (s.get_name(), s.get_qualified_name(), s.get_details(), s.get_signature(), s.get_range().start.offset);
+                });
+                aidl_parser::traverse::walk_types(a, |t| {
+                    let _ = t.name.len();
+                });
+                if let Err(e) = roundtrip(a) {
+                    r.fail(format!("file {id} ({stage} tree, after the symbol helpers were called on it): {e}"));
+                }
                 if stage == "validated" {
                     let d = format!("{a:?}");
                     for k in ["AndroidType(IBinder", "AndroidType(FileDescriptor", "AndroidType(ParcelFileDescriptor", "AndroidType(ParcelableHolder", "Interface)", "Parcelable)", "Enum)", "ForwardDeclaredParcelable", "UnknownImport", "Unresolved", "oneway: true", "doc: Some(\"\")", "transact_code: Some", "InOut(", "Out("] {
